@@ -157,30 +157,35 @@ pub fn run_property(prop: &str, tier: &str) -> Option<Outcome> {
             e2_search(prop, Kind::Std, &[Method::Ovl, Method::OvlIt], tier, &mut acc, &mut bounds);
             pop_table(prop, &[Kind::Std], &[Method::Ovl, Method::OvlIt], tier, &mut acc, &mut bounds);
             small_table(prop, &[Kind::Std], &[Method::Ovl, Method::OvlIt], tier, &mut acc, &mut bounds);
+            crate::scale::scale_cases(prop, &[Kind::Std], &[Method::Ovl, Method::OvlIt], tier, &mut acc, &mut bounds);
             ("model_checking", "E2: every (pattern sequence, embedding, haystack) of the listed scopes; non-trivial = the oracle lists two matches that overlap or share an end".into(), vec![])
         }
         "C02" => {
             e2_search(prop, Kind::Std, &[Method::Find, Method::FindIt], tier, &mut acc, &mut bounds);
             pop_table(prop, &[Kind::Std], &[Method::Find, Method::FindIt], tier, &mut acc, &mut bounds);
             small_table(prop, &[Kind::Std], &[Method::Find, Method::FindIt], tier, &mut acc, &mut bounds);
+            crate::scale::scale_cases(prop, &[Kind::Std], &[Method::Find, Method::FindIt], tier, &mut acc, &mut bounds);
             ("model_checking", "non-trivial = the non-overlapping answer is non-empty and differs from the no-suffix answer".into(), vec![])
         }
         "C03" => {
             e2_search(prop, Kind::LL, &[Method::Lm], tier, &mut acc, &mut bounds);
             pop_table(prop, &[Kind::LL], &[Method::Lm], tier, &mut acc, &mut bounds);
             small_table(prop, &[Kind::LL], &[Method::Lm], tier, &mut acc, &mut bounds);
+            crate::scale::scale_cases(prop, &[Kind::LL], &[Method::Lm], tier, &mut acc, &mut bounds);
             ("exploration", "non-trivial = some occurrence is suppressed and leftmost-longest differs from leftmost-first".into(), vec![])
         }
         "C04" => {
             e2_search(prop, Kind::LF, &[Method::Lm], tier, &mut acc, &mut bounds);
             pop_table(prop, &[Kind::LF], &[Method::Lm], tier, &mut acc, &mut bounds);
             small_table(prop, &[Kind::LF], &[Method::Lm], tier, &mut acc, &mut bounds);
+            crate::scale::scale_cases(prop, &[Kind::LF], &[Method::Lm], tier, &mut acc, &mut bounds);
             ("exploration", "non-trivial = some occurrence is suppressed and leftmost-first differs from leftmost-longest".into(), vec![])
         }
         "C05" => {
             e2_search(prop, Kind::Std, &[Method::NoSuf, Method::NoSufIt], tier, &mut acc, &mut bounds);
             pop_table(prop, &[Kind::Std], &[Method::NoSuf, Method::NoSufIt], tier, &mut acc, &mut bounds);
             small_table(prop, &[Kind::Std], &[Method::NoSuf, Method::NoSufIt], tier, &mut acc, &mut bounds);
+            crate::scale::scale_cases(prop, &[Kind::Std], &[Method::NoSuf, Method::NoSufIt], tier, &mut acc, &mut bounds);
             ("model_checking", "non-trivial = the no-suffix answer is non-empty and differs from the non-overlapping answer".into(), vec![])
         }
         "C06" => {
@@ -200,6 +205,11 @@ pub fn run_property(prop: &str, tier: &str) -> Option<Outcome> {
             }
             bounds.push(format!("E2 u32 values (bare + explicit) {} x all embeddings x 3 kinds x all methods", scope.name()));
             run_types("C06", tier, &mut acc, &mut bounds);
+            {
+                let mut ms = Method::STD.to_vec();
+                ms.push(Method::Lm);
+                crate::scale::scale_cases(prop, &Kind::ALL, &ms, tier, &mut acc, &mut bounds);
+            }
             pop_table(prop, &Kind::ALL, &[], tier, &mut acc, &mut bounds);
             ("exploration", "every (pattern set, value assignment over {0,1,MAX}/{MIN,-1,0,MAX}, type, variant, kind, haystack); non-trivial = two patterns share a value (or a single pattern)".into(), vec![])
         }
